@@ -164,6 +164,18 @@ impl RealtimeStats {
     }
 }
 
+/// First byte of every frame: the payload follows as is (deadline fallback, small-payload bypass)
+const FRAME_RAW: u8 = 0;
+/// First byte of every frame: the output of the mode's compressor follows
+const FRAME_COMPRESSED: u8 = 1;
+
+fn framed(marker: u8, body: &[u8]) -> Vec<u8> {
+    let mut frame = Vec::with_capacity(body.len() + 1);
+    frame.push(marker);
+    frame.extend_from_slice(body);
+    frame
+}
+
 impl RealtimeCompressor {
     /// Create a new real-time compressor
     pub fn new(config: RealtimeConfig) -> Result<Self> {
@@ -240,11 +252,17 @@ impl RealtimeCompressor {
 
     /// Decompress data
     pub async fn decompress(&self, data: &[u8]) -> Result<Vec<u8>> {
+        // The marker says whether compress fell back to storing the payload uncompressed
+        let body = match data.split_first() {
+            Some((&FRAME_RAW, body)) => return Ok(body.to_vec()),
+            Some((&FRAME_COMPRESSED, body)) => body,
+            _ => return Err(ZiporaError::invalid_data("unknown real-time frame marker")),
+        };
         let compressor = self.compressor.read()
             .map_err(|e| crate::error::ZiporaError::system_error(
                 format!("RealtimeCompressor: compressor RwLock poisoned: {}", e)
             ))?;
-        compressor.decompress(data)
+        compressor.decompress(body)
     }
 
     /// Batch compress multiple items
@@ -305,14 +323,14 @@ impl RealtimeCompressor {
     async fn compress_internal(&self, data: &[u8]) -> Result<Vec<u8>> {
         // For very small data, consider skipping compression
         if data.len() < 64 && self.config.mode == CompressionMode::UltraLowLatency {
-            return Ok(data.to_vec());
+            return Ok(framed(FRAME_RAW, data));
         }
 
         let compressor = self.compressor.read()
             .map_err(|e| crate::error::ZiporaError::system_error(
                 format!("RealtimeCompressor: compressor RwLock poisoned: {}", e)
             ))?;
-        compressor.compress(data)
+        compressor.compress(data).map(|c| framed(FRAME_COMPRESSED, &c))
     }
 
     /// Handle timeout by falling back to no compression
@@ -327,8 +345,8 @@ impl RealtimeCompressor {
         }
 
         if self.config.fallback_on_timeout {
-            // Use fallback compressor (no-op)
-            self.fallback_compressor.compress(data)
+            // Use fallback compressor (no-op); the marker tells decompress not to run the mode's decoder
+            self.fallback_compressor.compress(data).map(|c| framed(FRAME_RAW, &c))
         } else {
             Err(ZiporaError::configuration("compression deadline exceeded"))
         }
